@@ -8,6 +8,7 @@ from typing import Optional
 import numpy as np
 
 from .a_pool import EXC
+from .embed import InputGuard
 from .replay import Adapter, Mismatch
 
 NO_CELL = (-7,)
@@ -61,6 +62,7 @@ class SpecialAdapter(Adapter):
     def _facade(self, cls, pts, transformed):
         S = self.S
         arr = np.array(pts, dtype=float).reshape(-1, 3 if cls in ("radial3", "spherical", "sphsurf", "cylindrical", "cylsurf") else 2)
+        self._guard.track(arr)
         data = arr
         if transformed:
             data = self._klass(cls).transform(arr) if len(arr) else np.zeros((0, len(self._binnings(cls))))
@@ -91,6 +93,7 @@ class SpecialAdapter(Adapter):
     def apply(self, real, action, args, pre):
         obs = {"exc": None, "ret": None}
         o = real
+        self._guard = guard = InputGuard()
         try:
             if action == "Facade":
                 cls, batch, transformed = args
@@ -111,6 +114,7 @@ class SpecialAdapter(Adapter):
                     if np.ndim(pt) == 1 and h.ndim == 1:
                         pt = pt[0]
                 kw = {"transformed": True} if transformed else {}
+                guard.track(pt)
                 obs["ret"] = h.fill(pt, **kw) if action == "Fill" else h.find_bin(pt, **kw)
             elif action == "FillN":
                 batch, transformed = args
@@ -121,7 +125,7 @@ class SpecialAdapter(Adapter):
                 if transformed:
                     arr = type(h).transform(arr) if len(arr) else (np.zeros((0,)) if h.ndim == 1 else np.zeros((0, h.ndim)))
                     kw = {"transformed": True}
-                h.fill_n(arr, **kw)
+                h.fill_n(guard.track(arr), **kw)
             elif action == "WrongDim":
                 (how,) = args
                 h = o["h"]
@@ -147,6 +151,7 @@ class SpecialAdapter(Adapter):
             if isinstance(ex, RuntimeError) and str(ex).startswith("unknown action"):
                 raise
             obs["exc"] = f"{type(ex).__name__}: {ex}"
+        obs["inputs_changed"] = guard.changed()
         return o, obs
 
     # ------------------------------------------------------------ compare
@@ -164,6 +169,8 @@ class SpecialAdapter(Adapter):
 
     def compare(self, real, obs, post, action, args, pre, view) -> Optional[Mismatch]:
         bad, det = [], {}
+        if obs.get("inputs_changed"):
+            bad.append("inputs"); det["inputs"] = obs["inputs_changed"][:2]      # the caller's arrays were overwritten
         if action in REFUSALS:
             if obs["exc"] is None:
                 return Mismatch(["refused"], {"expected": "an exception", "observed": repr(obs["ret"])})
